@@ -137,18 +137,34 @@ def run(tier):
                 st1 = zckdltier.run_zckdl(bd, cwd, url, src=srcn, kill=(k, j), nofd=nofd)
                 mid = open(os.path.join(cwd, "B.zck"), "rb").read() if os.path.exists(os.path.join(cwd, "B.zck")) else b""
                 r1 = server.requested_ranges(srv.log, "B.zck"); del srv.log[:]
+                twice = None
+                if j == -1 and (k % 3 == 0 or tier == "thorough"):
+                    # repeated interruptions: the restart is killed too (at its 1st .. 4th write to the target), and only the
+                    # third run is left alone
+                    k2 = 1 + (k + si) % 4
+                    stb = zckdltier.run_zckdl(bd, cwd, url, src=srcn, kill=(k2, -2 if k % 2 else -1), nofd=nofd)
+                    midb = open(os.path.join(cwd, "B.zck"), "rb").read() if os.path.exists(os.path.join(cwd, "B.zck")) else b""
+                    rb_ = server.requested_ranges(srv.log, "B.zck"); del srv.log[:]
+                    twice = (mid, midb, rb_, stb, k2); mid = midb
+                    ck.extra["zckdl_restarts_killed_too"] = ck.extra.get("zckdl_restarts_killed_too", 0) + 1
                 st2 = zckdltier.run_zckdl(bd, cwd, url, src=srcn, nofd=nofd)
                 fin = open(os.path.join(cwd, "B.zck"), "rb").read() if os.path.exists(os.path.join(cwd, "B.zck")) else b""
                 r2 = server.requested_ranges(srv.log, "B.zck")
                 cid = "zk%d" % zk; zk += 1
                 name = "zckdl %s%s: killed at target write %d/%d after %s bytes, then run again" % (label, (" (started without descriptors %s%s)" % (",".join(map(str, nofd)), "" if srcn else ", no local source")) if nofd else "", k, W, "all" if j == -1 else ("half the" if j == -2 else str(j)))
                 Ause = A if srcn else None
-                ev1 = zckdltier.tool_event(B, hB, Ause, T0 or b"", mid, r1, 99 if st1 == 99 else (st1 if isinstance(st1, int) else 98))
+                ev1 = zckdltier.tool_event(B, hB, Ause, T0 or b"", twice[0] if twice else mid, r1, 99 if st1 == 99 else (st1 if isinstance(st1, int) else 98))
+                if twice:
+                    name += ", the restart killed at its write %d" % twice[4]
                 ev2 = zckdltier.tool_event(B, hB, Ause, mid, fin, r2, st2, must=True)          # the restart runs undisturbed: it has to converge
                 for ev in (ev1, ev2):
                     ev["name"] = name
                 trace.append({"op": "begin", "name": name, "scenario": name}); owner.append(cid)
                 trace.append(dict(ev1, scenario=name)); owner.append(cid)
+                if twice:
+                    evb = zckdltier.tool_event(B, hB, Ause, twice[0], twice[1], twice[2], 99 if twice[3] == 99 else (twice[3] if isinstance(twice[3], int) else 98))
+                    evb["name"] = name
+                    trace.append(dict(evb, scenario=name, restarted=True)); owner.append(cid)
                 trace.append(dict(ev2, scenario=name, restarted=True)); owner.append(cid)
                 zscripts[cid] = ("# ZV_ROLES=tgt=B.zck ZV_KILL=tgt:%d:%d zckdl -s A.zck <url> ; then zckdl -s A.zck <url>\n" % (k, j), name, [os.path.join(root, "B.zck"), (os.path.join(cwd, "A.zck"), A), (os.path.join(cwd, "B.zck.initial"), T0 or b"")])
                 ck.case(name)
